@@ -1,12 +1,19 @@
 #!/bin/bash
-# usage: try_seed.sh <patch.diff> <Cxx> [Cxx...]  -- run checks against a scratch copy of /repo with the patch applied (never touches /repo)
+# usage: try_seed.sh <patch.diff> <Cxx> [Cxx...]  -- run checks against a scratch copy of /repo with the patch applied (never touches /repo).
+# If the patch no longer applies to the current tree (a later fix: commit touched the same lines) the scratch copy is taken from the
+# base commit named in the meta.json next to the patch (or $BASE) instead; failures that only reflect fixes made after that commit are then expected too.
 P=$1; shift
 S=/tmp/mut_$$/repo
 mkdir -p $S && rsync -a --exclude target --exclude .git /repo/ $S/ || exit 9
+if ! (cd $S && patch -p1 -s --dry-run < $P >/dev/null 2>&1); then
+  B=${BASE:-$(python3 -c "import json,os,sys; print(json.load(open(os.path.join(os.path.dirname('$P'),'meta.json'))).get('base_commit',''))" 2>/dev/null)}
+  [ -z "$B" ] && { echo "PATCH FAILED (no base commit known)"; rm -rf /tmp/mut_$$; exit 9; }
+  echo "note: patch does not apply to the current tree; using base commit $B"
+  rm -rf $S && mkdir -p $S && git -C /repo archive $B | tar -x -C $S || exit 9
+fi
 (cd $S && patch -p1 -s < $P) || { echo "PATCH FAILED"; rm -rf /tmp/mut_$$; exit 9; }
 cd /verif
 for c in "$@"; do
   VERIF_REPO=$S python3 vf/main.py check $c 2>&1 | grep -E "^(VIOLATION|UNDECIDED|C[0-9]+ tier)" | cut -c1-260
 done
 rm -rf /tmp/mut_$$
-# evidence files were rewritten from the mutated copy: restore them from a run on /repo later (caller's job)
